@@ -50,6 +50,7 @@ static struct {
 } pairs[MAXPAIR];
 static int npairs;
 static atomic_long lock_calls;
+static atomic_long failed_ctx_calls;
 
 #ifdef VF_RC
 int __real_coap_lock_lock_func(const char *file, int line) __attribute__((weak));
@@ -447,6 +448,22 @@ worker(void *arg) {
         coap_session_send_ping(tcp);
       if (mine && (rnd() & 7) == 0)
         coap_session_send_ping(mine);
+      if ((rnd() & 15) == 0) {
+        /* a second context whose endpoint cannot be bound (192.0.2.1 is nobody's address):
+         * the call fails, and must leave the library usable for the other threads */
+        coap_address_t na;
+        coap_context_t *x;
+        op("context-that-cannot-bind");
+        coap_address_init(&na);
+        na.addr.sin.sin_family = AF_INET;
+        na.addr.sin.sin_addr.s_addr = htonl(0xC0000201);
+        na.addr.sin.sin_port = htons(5683);
+        na.size = sizeof(struct sockaddr_in);
+        x = coap_new_context(&na);
+        atomic_fetch_add(&failed_ctx_calls, 1);
+        if (x)
+          coap_free_context(x);
+      }
       break;
     case 11:
       op("send-to-dead-port");
@@ -656,7 +673,7 @@ main(int argc, char **argv) {
          "\"ping_handler\":%ld,\"pong_handler\":%ld,\"release_handler\":%ld,\"reentry_calls\":%ld,\"notifications\":%ld,"
          "\"sent_con\":%ld,\"sent_non\":%ld,\"send_fail\":%ld,\"tracked_con\":%ld,\"unanswered\":%ld,"
          "\"lock_calls\":%ld,\"lock_acquisitions\":%ld,\"lock_handovers\":%ld,\"handover_pairs\":%d,"
-         "\"ms\":%ld,\"unanswered_list\":\"%s\",\"opmix\":[",
+         "\"ms\":%ld,\"unanswered_list\":\"%s\",\"failed_context_calls\":%ld,\"opmix\":[",
          dual_io, supported, nw, ops, (unsigned long long)seed, port, atomic_load(&n_req_handler),
          atomic_load(&n_rsp_handler), atomic_load(&n_nack_handler), atomic_load(&n_event_handler),
          atomic_load(&n_ping_handler), atomic_load(&n_pong_handler), atomic_load(&n_release_handler),
@@ -664,7 +681,8 @@ main(int argc, char **argv) {
          atomic_load(&n_notify_rsp), atomic_load(&n_sent_con), atomic_load(&n_sent_non),
          atomic_load(&n_send_fail), total_sent, unanswered, atomic_load(&lock_calls), lock_acq,
          lock_handover, npairs,
-         (long)((t1.tv_sec - t0.tv_sec) * 1000 + (t1.tv_nsec - t0.tv_nsec) / 1000000), unans);
+         (long)((t1.tv_sec - t0.tv_sec) * 1000 + (t1.tv_nsec - t0.tv_nsec) / 1000000), unans,
+         atomic_load(&failed_ctx_calls));
   for (i = 0; i < 12; i++)
     printf("%s%ld", i ? "," : "", atomic_load(&op_count[i]));
   printf("],\"pairs\":[");
